@@ -473,15 +473,15 @@ def gen_dec_ops(ctx, frames, rng):
     p12 = prefixes(1) + prefixes(2)
     p35 = prefixes(3) + prefixes(4) + prefixes(5)
     i = 0
-    # every first byte x length prefixes of 1-2 bytes x bodies of <= 1 byte (+ <= 2 bytes in the thorough tier)
-    bodies = BODY if not ctx.thorough() else BODY + [a + b for a in BODY[1:] for b in BODY[1:]]
+    # every first byte x length prefixes of 1-2 bytes x bodies of <= 2 bytes
+    bodies = BODY + [a + b for a in BODY[1:] for b in BODY[1:]]
     for b1 in range(256):
         for lp in p12:
             for body in bodies:
                 i += 1
                 ops.append(("%02x" % b1) + lp + body)
     # every packet type (natural flags + all-ones flags) x length prefixes of 3-5 bytes
-    firsts = [(t << 4) | f for t in range(16) for f in ((0, 2, 0xf) if not ctx.thorough() else range(16))]
+    firsts = [(t << 4) | f for t in range(16) for f in ((0, 2, 3, 6, 9, 0xf) if not ctx.thorough() else range(16))]
     for b1 in firsts:
         for lp in p35:
             ops.append(("%02x" % b1) + lp)
@@ -509,12 +509,6 @@ def gen_dec_ops(ctx, frames, rng):
         if n >= 2 and rng.chance(2, 3):
             b[1] = rng.choice([n - 2, n - 2, n - 1, n - 3 if n > 2 else 0, rng.below(128)]) & 0x7f
         ops.append(b.hex() or "-")
-    if ctx.thorough():
-        for a in range(256):
-            for b in range(256):
-                ops.append("%02x%02x" % (a, b))
-                for c in (0, 1, 2, 4, 0x7f, 0x80, 0xff):
-                    ops.append("%02x%02x%02x" % (a, b, c))
     lines = []
     for j, o in enumerate(ops):
         mx = MAXES[j % len(MAXES)] if j < grammar_n else rng.choice([BIG, BIG, 10240, 128, 127, 1, 0])
@@ -548,7 +542,7 @@ def gen_stream_ops(ctx, frames, rng):
     groups = []
     small = [f for f in frames if len(f) <= 60]
     bad = ["f000", "3003000061", "100400044d51", "82020001", "ffffffffff00", "b00100", "9003000103", "e00100", "00", "30ffffffff7f"]
-    ng = 4000 if ctx.thorough() else 260
+    ng = 8000 if ctx.thorough() else 1500
     for g in range(ng):
         k = 1 + rng.below(6)
         parts = [rng.choice(small) for _ in range(k)]
@@ -576,15 +570,17 @@ def gen_stream_ops(ctx, frames, rng):
 def run_c05(ctx, mexe, iexe, p_ok):
     rng = lib.Rng(ctx.seed)
     ctx.cov["rule"] = (
-        "(a) DEC through all four v4 entry points (rumqttc Packet::read, rumqttd V4::read_mut; each op on both): every first byte x remaining-length "
-        "prefixes of 1-2 bytes over {00,01,7f,80,ff} x bodies of <= 1 byte over {00,01,02,04,7f,80,ff}; 16 types x 3 flag nibbles x prefixes of 3-5 bytes; "
-        "all truncations and 5 single-byte mutations per position of the model's encodings of the small C04 packets; random strings (length byte often "
-        "made consistent); max cycling over {0,1,127,128,10240}. Monitor per answer, with the frame length recomputed from the header by the check itself: "
+        "(a) DEC through the v4 entry points of both crates (rumqttc Packet::read, rumqttd V4::read_mut; every input through both): every first byte x "
+        "remaining-length prefixes of 1-2 bytes over {00,01,7f,80,ff} x bodies of <= 2 bytes over {00,01,02,04,7f,80,ff}; 16 types x 6 flag nibbles "
+        "(thorough: 16) x prefixes of 3-5 bytes; all truncations and 5 single-byte mutations per position of the model's encodings of the small C04 "
+        "packets; random strings (length byte often made consistent); thorough tier: additionally ALL byte strings of length <= 3; max cycling over "
+        "{0,1,127,128,10240}. Monitor per answer, with the frame length recomputed from the header by the check itself: "
         "no PANIC; PKT consumes exactly the declared frame, MAL consumes 0 or the frame; remaining > max => MAL PayloadSizeLimitExceeded consuming 0 even "
         "without body; MORE k only if header incomplete or buffer < frame, 1 <= k <= missing. (b) STREAM: concatenations of 1-6 frames (+ one malformed or "
         "truncated frame in half of them) fed through the real Framed<duplex,Codec> (rumqttc::verif::Network::read) and rumqttd Network::read/readv over "
         "tokio duplex, unsplit, every 2-chunk split (<= 40 bytes, else 12 random), 3 random k-chunk splits, byte by byte; monitor: all chunkings of one stream "
-        "give the same packet sequence and terminal, no PANIC. Every answer is also compared with the extracted Coq model. distinct_nontrivial = distinct DEC "
+        "give the same packet sequence and terminal, no PANIC. (c) UTF8: the model's validator vs String::from_utf8 on lead/continuation boundary bytes. "
+        "Every answer is also compared with the extracted Coq model. distinct_nontrivial = distinct DEC "
         "inputs that are not plain valid frames (malformed / truncated / over-max / trailing bytes) + distinct chunkings whose first cut falls inside a frame.")
     frames = small_valid_frames(ctx, mexe, rng)
     dlines, grammar_n, mut_n = gen_dec_ops(ctx, frames, rng)
@@ -600,25 +596,60 @@ def run_c05(ctx, mexe, iexe, p_ok):
                     if a >= 0xf0:
                         ulines.append("UTF8 %02x%02x%02x80" % (a, b, c)); ulines.append("UTF8 %02x%02x%02xc0" % (a, b, c))
     slines, gidx = gen_stream_ops(ctx, frames, rng)
-    impl, model = both(ctx, mexe, iexe, dlines + ulines, "c05-dec")
-    if impl is None:
+    fails, diffs = [], []
+    hist, nontriv = {}, set()
+    counters = {"ops": 0, "nontriv_extra": 0}
+    samples = []
+
+    def process(lines, tag, exhaustive_distinct=False):
+        """run one batch of DEC/UTF8 ops on both sides, evaluate monitor + correspondence"""
+        impl, model = both(ctx, mexe, iexe, lines, tag)
+        if impl is None:
+            return False
+        for op, a, m in zip(lines, impl, model):
+            if a != m:
+                diffs.append(([op], "impl[%s] model[%s]" % (short(a), short(m))))
+            if op.startswith("DEC"):
+                msg = dec_monitor(op, a)
+                if msg:
+                    fails.append(([op], msg))
+                k = " ".join(a.split()[:2]) if not a.startswith("PKT") else "PKT " + a.split()[1]
+                hist[k] = hist.get(k, 0) + 1
+                if not a.startswith("PKT") or int(a.split()[-1]) * 2 != len(op.split()[4]):
+                    if exhaustive_distinct:
+                        counters["nontriv_extra"] += 1
+                    else:
+                        nontriv.add(op.split(None, 2)[2])
+        counters["ops"] += len(lines)
+        for i in (0, 4001, len(lines) - 1):
+            if i < len(lines) and len(samples) < 6:
+                samples.append("%s -> impl %s / model %s" % (short(lines[i]), short(impl[i]), short(model[i])))
+        return True
+
+    if not process(dlines + ulines, "c05-dec"):
         return
+    all3 = 0
+    if ctx.thorough():
+        # ALL byte strings of length <= 3 through both decoders, one first byte per batch
+        for a in range(256):
+            batch = []
+            pre = "%02x" % a
+            j = a
+            for mid in [""] + ["%02x" % b for b in range(256)]:
+                tails = [""] if mid == "" else [""] + ["%02x" % c for c in range(256)]
+                for tl in tails:
+                    j += 1
+                    mx = MAXES[j % len(MAXES)]
+                    batch.append("DEC 4 C %d %s" % (mx, pre + mid + tl))
+                    batch.append("DEC 4 B %d %s" % (mx, pre + mid + tl))
+            all3 += len(batch)
+            if not process(batch, "c05-all3-%02x" % a, exhaustive_distinct=True):
+                return
+            if len(fails) > 1000 or len(diffs) > 1000:
+                break
     simpl, smodel = both(ctx, mexe, iexe, slines, "c05-stream")
     if simpl is None:
         return
-    fails, diffs = [], []
-    hist, nontriv = {}, set()
-    for op, a, m in zip(dlines + ulines, impl, model):
-        if a != m:
-            diffs.append(([op], "impl[%s] model[%s]" % (short(a), short(m))))
-        if op.startswith("DEC"):
-            msg = dec_monitor(op, a)
-            if msg:
-                fails.append(([op], msg))
-            k = " ".join(a.split()[:2]) if not a.startswith("PKT") else "PKT " + a.split()[1]
-            hist[k] = hist.get(k, 0) + 1
-            if not a.startswith("PKT") or int(a.split()[-1]) * 2 != len(op.split()[4]):
-                nontriv.add(op.split(None, 2)[2])
     inside = 0
     for (s, e) in gidx:
         ref = simpl[s]
@@ -638,11 +669,13 @@ def run_c05(ctx, mexe, iexe, p_ok):
                     nontriv.add(slines[j])
         k = "STREAM:" + ref.split(" | ")[-1]
         hist[k] = hist.get(k, 0) + 1
-    ctx.cov["evaluations"] = len(dlines) + len(ulines) + len(slines)
-    ctx.cov["traces_validated_against_impl"] = len(dlines) + len(ulines) + len(slines)
-    ctx.cov["distinct_nontrivial"] = len(nontriv)
+    total = counters["ops"] + len(slines)
+    ctx.cov["evaluations"] = total
+    ctx.cov["traces_validated_against_impl"] = total
+    ctx.cov["distinct_nontrivial"] = len(nontriv) + counters["nontriv_extra"]
     ctx.cov["exhaustive"] = True
-    ctx.cov["exhaustive_part"] = 2 * grammar_n
+    ctx.cov["exhaustive_part"] = 2 * grammar_n + all3
+    ctx.cov["all_strings_upto_3_bytes_ops"] = all3
     ctx.cov["mutation_ops"] = 2 * mut_n
     ctx.cov["utf8_ops"] = len(ulines)
     ctx.cov["streams"] = len(gidx)
@@ -650,10 +683,8 @@ def run_c05(ctx, mexe, iexe, p_ok):
     ctx.cov["chunkings_cutting_inside_a_frame"] = inside
     ctx.cov["answer_histogram"] = dict(sorted(hist.items(), key=lambda kv: -kv[1])[:60])
     ctx.cov["correspondence_only"] = []
-    ctx.cov["samples"] = ["%s -> impl %s / model %s" % (short(o), short(a), short(m)) for (o, a, m) in
-                          [(dlines[i], impl[i], model[i]) for i in (0, 4001, 2 * grammar_n + 11, len(dlines) - 1)] +
-                          [(slines[i], simpl[i], smodel[i]) for i in (1, len(slines) // 2, len(slines) - 1)]]
-    report(ctx, "C05", fails, diffs, p_ok, len(dlines) + len(ulines) + len(slines))
+    ctx.cov["samples"] = samples + ["%s -> impl %s / model %s" % (short(slines[i]), short(simpl[i]), short(smodel[i])) for i in (1, len(slines) // 2, len(slines) - 1)]
+    report(ctx, "C05", fails, diffs, p_ok, total)
 
 
 # ------------------------------------------------------------------ entry points
